@@ -1,6 +1,8 @@
 import EchoProofs.C01
 import EchoProofs.C02
+import EchoProofs.C03
 import EchoProofs.C14
+import EchoProofs.Spec.Allow
 import EchoProofs.Spec.Basics
 import EchoProofs.Spec.Perm
 import EchoProofs.Spec.Sound
